@@ -269,7 +269,7 @@ func C05() *engine.Scenario {
 	return &engine.Scenario{
 		ID:    "C05",
 		Level: "exploration",
-		Rule: "Each run draws a history of Set/Replace/Delete over a key alphabet (3 keys .. 200 keys; 1..8 ops, or up to 5000 ops for long runs) on two ordered maps A and B (B optionally nil, zero-value, or mirroring A through a different tombstone history), with a re-entrant iterator task that fires Replace(current,new,v) from inside Range callbacks at sched-tape-chosen callbacks. After every operation and callback all observers are compared with a list-of-pairs model. Fingerprint = hash(op-kind/key-index sequence, start kinds, final model). Non-trivial = the history made at least one tombstone (effective Delete, colliding Replace) or fired a re-entrant rename.",
+		Rule:  "Each run draws a history of Set/Replace/Delete over a key alphabet (3 keys .. 200 keys; 1..8 ops, or up to 5000 ops for long runs) on two ordered maps A and B (B optionally nil, zero-value, or mirroring A through a different tombstone history), with a re-entrant iterator task that fires Replace(current,new,v) from inside Range callbacks at sched-tape-chosen callbacks. After every operation and callback all observers are compared with a list-of-pairs model. Fingerprint = hash(op-kind/key-index sequence, start kinds, final model). Non-trivial = the history made at least one tombstone (effective Delete, colliding Replace) or fired a re-entrant rename.",
 		Real:  []string{"ordered.Map (Set, Replace, Delete, Len, IsZero, Get, Contains, Range, ToMap, MarshalJSON, MarshalYAML, Equal, MapFromItems, NewMap)"},
 		Stub:  []string{"clients (history generator)", "iterator task (re-entrant renamer)", "list-of-pairs reference model", "encoding/json + yaml.v3 used only to decode the map's own output"},
 		Assume: []string{"Set/Replace on a nil *Map are outside the property (no non-panicking meaning); Delete from inside a callback is not generated (not in the property)",
